@@ -79,6 +79,33 @@ if _os.environ.get("HEXVC_TIER") == "thorough":
     _TFS = (1, 5, 60, 300, 900, 2700, 3600, 14400, 86400, 604800)  # every TimeFrame length class plus odd ones
 for _tf in _TFS:
     HEX_TASKS[CM + f"collapse_candles#tf={_tf}s"] = dict(qualname=CM + "collapse_candles", builder=manager_store_builder(False, _tf), contract=COLLAPSE)
+# wiring of gap filling (C12): with timeframe_fill the bucket list goes through fill_missing_candles exactly once, and what
+# fill returns is what the manager keeps (fill itself is proved separately against FILL)
+def _fill_stub(ex, st, args, kwargs, node):
+    def gen():
+        o = st.heap[args[0].oid]
+        o.fields["fill_calls"] = o.fields.get("fill_calls", 0) + 1
+        o.fields["fill_arg"] = args[1]
+        yield st, args[1]
+    return gen()
+
+
+def _fill_wiring_builder(tf_value):
+    inner = manager_store_builder(True, tf_value)
+
+    def build(ex, st):
+        for st1, args, kwargs, env in inner(ex, st):
+            st1.heap[args[0].oid].fields["fill_calls"] = 0
+            yield st1, args, kwargs, env
+    return build
+
+
+HEX_TASKS[CM + "collapse_candles#fill-wiring"] = dict(
+    qualname=CM + "collapse_candles", builder=_fill_wiring_builder(300), natives={CM + "fill_missing_candles": _fill_stub},
+    contract=Contract(CM + "collapse_candles", ensures=dict(COLLAPSE.ensures, **{
+        "buckets-pass-through-fill-exactly-once": "implies(n >= 1, self.fill_calls == 1)"}),
+        result_type="None", props=["C12"], use_at_calls=False))
+HEX_TASKS[CM + "collapse_candles#fill-wiring"]["contract"].ground_rounds = 3
 LOOPS = {
     (CM + "collapse_candles", 0): LoopSpec(
         invariant=COLLAPSE_INV,
